@@ -154,6 +154,23 @@ func (cr *serverConnReader) handleTunneling(in io.ReadWriter) (io.ReadWriter, er
 			}
 			var buf2 bytes.Buffer
 			res.Write(&buf2) //nolint:errcheck
+
+			channelReq := serverHandleHTTPChannelReq{
+				sc:       cr.sc,
+				write:    (req.Method == http.MethodPost),
+				tunnelID: req.Header.Get("X-Sessioncookie"),
+			}
+
+			// register the GET half before replying, since the client
+			// opens the POST half as soon as it receives the response.
+			var readChanRes chan error
+			if !channelReq.write {
+				readChanRes, err = cr.sc.s.registerHTTPReadChannel(channelReq)
+				if err != nil {
+					return nil, err
+				}
+			}
+
 			cr.sc.nconn.SetWriteDeadline(time.Now().Add(cr.sc.s.WriteTimeout))
 			_, err = in.Write(buf2.Bytes())
 			if err != nil {
@@ -162,12 +179,11 @@ func (cr *serverConnReader) handleTunneling(in io.ReadWriter) (io.ReadWriter, er
 
 			cr.sc.httpReadBuf = buf
 
-			err = cr.sc.s.handleHTTPChannel(serverHandleHTTPChannelReq{
-				sc:       cr.sc,
-				write:    (req.Method == http.MethodPost),
-				tunnelID: req.Header.Get("X-Sessioncookie"),
-			})
-			return nil, err
+			if !channelReq.write {
+				return nil, cr.sc.s.waitHTTPReadChannel(cr.sc, readChanRes)
+			}
+
+			return nil, cr.sc.s.handleHTTPWriteChannel(channelReq)
 
 		case isWebSocketTunnel(req):
 			resw := &wsResponseWriter{r: cr.sc.nconn, buf: buf, w: in, req: req}
